@@ -89,6 +89,7 @@ pub struct Ctx {
     pub last_count: usize,
     pub ro_digest: Option<([u8; 32], u64, Option<std::time::SystemTime>)>, // file identity when the read-only handle was opened
     pub batch_level: Option<i32>, // compression level of the open batch (begin_batch .. end_batch)
+    pub mesh_names: HashMap<u64, String>, // node id -> "canonical name|kind" of every identity a scenario mentioned
 }
 
 pub fn hex(b: &[u8]) -> String {
@@ -132,14 +133,14 @@ impl Ctx {
             Err(_) => scratch_dir("core"),
         };
         let path = dir.path().join("m.mv2");
-        let mut c = Ctx { dir, path, mem: None, ro: false, digests: HashMap::new(), embs: HashMap::new(), last_count: 0, ro_digest: None, batch_level: None };
+        let mut c = Ctx { dir, path, mem: None, ro: false, digests: HashMap::new(), embs: HashMap::new(), last_count: 0, ro_digest: None, batch_level: None, mesh_names: HashMap::new() };
         c.register_payload(0, b"");
         c
     }
 
     /// A context over an existing file (crash-left state) with the payload registry of the run that produced it.
     pub fn at(dir: tempfile::TempDir, path: PathBuf, registry: &Value) -> Ctx {
-        let mut c = Ctx { dir, path, mem: None, ro: false, digests: HashMap::new(), embs: HashMap::new(), last_count: 0, ro_digest: None, batch_level: None };
+        let mut c = Ctx { dir, path, mem: None, ro: false, digests: HashMap::new(), embs: HashMap::new(), last_count: 0, ro_digest: None, batch_level: None, mesh_names: HashMap::new() };
         if let Some(m) = registry["digests"].as_object() {
             for (k, v) in m {
                 let mut d = [0u8; 32];
@@ -1162,6 +1163,59 @@ pub fn exec(ctx: &mut Ctx, op: &Value) -> (Value, Value) {
                 }
             }
         }
+        "mesh_node" => {
+            use memvid_core::types::logic_mesh::{EntityKind, MeshNode};
+            let nm = op["name"].as_str().unwrap_or("n1");
+            let node = MeshNode::new(nm.to_lowercase(), nm.to_string(), EntityKind::from_label(op["kind"].as_str().unwrap_or("person")),
+                                     op["conf"].as_u64().unwrap_or(50) as f32 / 100.0, op["frame"].as_u64().unwrap_or(0),
+                                     op["start"].as_u64().unwrap_or(0) as u32, op["len"].as_u64().unwrap_or(1) as u16);
+            match ctx.mem.as_mut() {
+                None => json!({"ok": false, "err": "NoHandle"}),
+                Some(m) => match catch_unwind(AssertUnwindSafe(|| m.add_mesh_node(node))) { Ok(()) => res_ok(json!(null)), Err(p) => res_panic(p) },
+            }
+        }
+        "mesh_edge" => {
+            use memvid_core::types::logic_mesh::{EntityKind, LinkType, MeshEdge, compute_node_id};
+            let mut id = |n: &str, k: &str| {
+                let kind = EntityKind::from_label(k);
+                let v = compute_node_id(&n.to_lowercase(), kind);
+                ctx.mesh_names.insert(v, format!("{}|{}", n.to_lowercase(), kind.as_str()));
+                v
+            };
+            let (a, b) = (id(op["from"].as_str().unwrap_or("n1"), op["fkind"].as_str().unwrap_or("person")),
+                          id(op["to"].as_str().unwrap_or("n2"), op["tkind"].as_str().unwrap_or("person")));
+            let e = MeshEdge::new(a, b,
+                                  LinkType::from_str(op["link"].as_str().unwrap_or("member")), op["conf"].as_u64().unwrap_or(50) as f32 / 100.0,
+                                  op["frame"].as_u64().unwrap_or(0));
+            match ctx.mem.as_mut() {
+                None => json!({"ok": false, "err": "NoHandle"}),
+                Some(m) => match catch_unwind(AssertUnwindSafe(|| m.add_mesh_edge(e))) { Ok(()) => res_ok(json!(null)), Err(p) => res_panic(p) },
+            }
+        }
+        "mesh" => match ctx.mem.as_ref() {
+            None => json!({"ok": false, "err": "NoHandle"}),
+            Some(m) => {
+                // C27: the whole mesh, identities resolved to names so that it can be compared as a set
+                let mesh = m.logic_mesh();
+                let names = &ctx.mesh_names;
+                let name_of = |id: u64| mesh.find_node_by_id(id).map(|n| format!("{}|{}", n.canonical_name, n.kind.as_str()))
+                    .or_else(|| names.get(&id).cloned()).unwrap_or_else(|| format!("?{id}"));
+                let mut nodes: Vec<Value> = mesh.nodes.iter().map(|n| {
+                    let mut fr = n.frame_ids.clone();
+                    fr.sort_unstable();
+                    let mut me: Vec<(u64, u32, u16)> = n.mentions.clone();
+                    me.sort_unstable();
+                    json!({"name": n.canonical_name, "kind": n.kind.as_str(), "conf": n.confidence, "frames": fr,
+                           "ments": me.iter().map(|x| json!([x.0, x.1, x.2])).collect::<Vec<_>>(), "display": n.display_name,
+                           "id_ok": n.id == memvid_core::types::logic_mesh::compute_node_id(&n.canonical_name, n.kind)})
+                }).collect();
+                nodes.sort_by_key(|v| v.to_string());
+                let mut edges: Vec<Value> = mesh.edges.iter().map(|e| json!({"from": name_of(e.from_node), "to": name_of(e.to_node), "link": e.link.as_str(),
+                                                                             "conf": e.confidence, "frame": e.frame_id})).collect();
+                edges.sort_by_key(|v| v.to_string());
+                res_ok(json!({"nodes": nodes, "edges": edges, "node_count": m.mesh_node_count(), "edge_count": m.mesh_edge_count()}))
+            }
+        },
         "cards" => match ctx.mem.as_mut() {
             None => json!({"ok": false, "err": "NoHandle"}),
             Some(m) => {
